@@ -38,6 +38,14 @@ def _call(a):
     from xfab import structure
     import numpy as np
     try:
+        if all(float(q).is_integer() for q in pos):
+            # lattice points given the way a user types them: [0, 0, 0], [1, 0, -2] (Python ints, integer array)
+            ints = [int(q) for q in pos]
+            a = structure.multiplicity(ints, sgno=no, cell_choice=setting)
+            b = structure.multiplicity(np.array(ints), sgname=name)
+            c = structure.multiplicity(pos, sgname=name)
+            if not (a == b == c):
+                return "integer-typed coordinates %s give %s / %s, the same point as floats gives %s" % (ints, a, b, c)
         k = int(abs(pos[0] * 1000)) % 3
         p1 = [list, np.array, list][k](pos)
         return (structure.multiplicity(p1, sgno=no if k else np.int64(no), cell_choice=setting),
@@ -95,7 +103,7 @@ def run(tier, seed):
     suite = suite_multiplicity_events(wd, tabs, dic)
     rng = random.Random(seed)
     grid = [([a, b, c], 24) for a in GRID for b in GRID for c in GRID]
-    fam = families()
+    fam = families() + [([0, 0, 0], 24), ([0, 0, 12], 24)]
     nt = len(tabs)
     if tier == "quick":
         cases = []
@@ -138,7 +146,7 @@ def run(tier, seed):
         sample = {"sg": [t["no"], t["setting"]], "pos": "%s/%d" % (x["p"], x["N"]), "shift": sh, "orbit_size": x["m"]}
         v.case(key, nontrivial=True, sample=sample if (nontriv and rng.random() < 0.01) or not v.samples else None)
         if isinstance(res, str):
-            v.violation("multiplicity raised %s" % res, sample)
+            v.violation("multiplicity: %s (Sg%d %s)" % (res, t["no"], t["setting"]), sample)
             continue
         got_no, got_nm = res
         if got_no != x["m"] or got_nm != x["m"]:
